@@ -112,8 +112,14 @@ func (c *C) Distinct(set string, hash uint64) {
 // that identifies it for the distinct count. May be called several times
 // with different hashes (each counts as one distinct item).
 func (c *C) NonTrivial(hash uint64) {
+	if len(c.shard.NTHashes) >= maxNTPerShard { // memory guard: the distinct count then saturates (a lower bound)
+		c.shard.Obs["nontrivial_hashes_not_recorded"]++
+		return
+	}
 	c.shard.NTHashes = append(c.shard.NTHashes, hash)
 }
+
+const maxNTPerShard = 3000000
 
 // Sample offers a written-out case for the evidence file (first few kept).
 func (c *C) Sample(v interface{}) {
